@@ -231,6 +231,8 @@ func init() {
 	RegInd(&Ind{
 		Name: "volume.Obv", In: []string{"C", "V"}, Out: []string{"obv"},
 		Cfgs: noCfg,
+		// comparing a price with a running volume total (the recorded defect) is not unit-invariant
+		ScaleKnown: func([]float64, bool) string { return "obv-compares-close-with-previous-obv" },
 		New: func(c []float64) *Inst {
 			o := volume.NewObv[float64]()
 			return &Inst{Obj: o, Idle: o.IdlePeriod(), Compute: F21(o.Compute)}
